@@ -283,9 +283,8 @@ Conversion<Unit::TemperatureGradient, Unit::TemperatureGradient::FahrenheitPerIn
 }
 
 template <typename NumericType>
-inline const std::
-    map<Unit::TemperatureGradient, std::function<void(NumericType* values, const std::size_t size)>>
-        MapOfConversionsFromStandard<Unit::TemperatureGradient, NumericType>{
+inline constexpr auto MapOfConversionsFromStandard<Unit::TemperatureGradient, NumericType>{
+  MakeConversionTable<Unit::TemperatureGradient, NumericType>({
           {Unit::TemperatureGradient::KelvinPerMetre,
            Conversions<Unit::TemperatureGradient, Unit::TemperatureGradient::KelvinPerMetre>::
                FromStandard<NumericType>},
@@ -310,12 +309,12 @@ inline const std::
           {Unit::TemperatureGradient::FahrenheitPerInch,
            Conversions<Unit::TemperatureGradient, Unit::TemperatureGradient::FahrenheitPerInch>::
                FromStandard<NumericType>},
+})
 };
 
 template <typename NumericType>
-inline const std::map<Unit::TemperatureGradient,
-                      std::function<void(NumericType* const values, const std::size_t size)>>
-    MapOfConversionsToStandard<Unit::TemperatureGradient, NumericType>{
+inline constexpr auto MapOfConversionsToStandard<Unit::TemperatureGradient, NumericType>{
+  MakeConversionTable<Unit::TemperatureGradient, NumericType>({
       {Unit::TemperatureGradient::KelvinPerMetre,
        Conversions<Unit::TemperatureGradient, Unit::TemperatureGradient::KelvinPerMetre>::
            ToStandard<NumericType>},
@@ -340,6 +339,7 @@ inline const std::map<Unit::TemperatureGradient,
       {Unit::TemperatureGradient::FahrenheitPerInch,
        Conversions<Unit::TemperatureGradient, Unit::TemperatureGradient::FahrenheitPerInch>::
            ToStandard<NumericType>},
+})
 };
 
 }  // namespace Internal
